@@ -9,6 +9,10 @@ sys.setrecursionlimit(10000)
 # --------------------------------------------------------------------------
 # places / operands
 
+import re as _re_int
+_INT_TY = _re_int.compile(r"^(u8|u16|u32|u64|u128|usize|i8|i16|i32|i64|i128|isize)$")
+
+
 def mk_place(j):
     """JSON place -> (local, (proj...)) with hashable projection elements."""
     proj = []
@@ -754,6 +758,12 @@ class X:
             name = "<indirect>"
         else:
             name = norm_path(c.get("rpath") or c["path"]) if c.get("rkind") == "item" else norm_path(c["path"])
+            # `u64::from(x)` / `x.into()` between primitive integers is the lossless widening `x as u64`
+            if c.get("path") in ("std::convert::From::from", "core::convert::From::from", "std::convert::Into::into", "core::convert::Into::into") and len(t.args) == 1:
+                ss = c.get("substs") or []
+                if len(ss) == 2 and all(_INT_TY.match(x or "") for x in ss):
+                    to = ss[0] if c["path"].endswith("From::from") else ss[1]
+                    return ("cast", to, self.operand(t.args[0], d), "IntToInt")
         return ("call", name, tuple(self.operand(a, d) for a in t.args), (bb,))
 
     def operand(self, op, d=None):
